@@ -87,6 +87,13 @@ Proof.
   rewrite Nat2Z.id, H. reflexivity.
 Qed.
 
+Lemma v_den_out : forall D l i o w, v_result D (v_wire_in D l (Z.of_nat i)) = SOk (o, w) ->
+  v_den D l (-1 - Z.of_nat i)%Z = cbor_norm (v_nout D) w.
+Proof.
+  intros D l i o w H. unfold v_den. destruct (Z.ltb_spec (-1 - Z.of_nat i) 0) as [_|Hge]; [|lia].
+  replace (-1 - (-1 - Z.of_nat i))%Z with (Z.of_nat i) by lia. unfold v_outval. rewrite H. reflexivity.
+Qed.
+
 Section Transparent.
 Variable D : vcfg.
 Variable vcalls : list (C.callspec gval).
@@ -132,7 +139,7 @@ Proof.
     by (unfold v_result; rewrite Ew; reflexivity).
   destruct (alookup "s" (v_plugin D)) as [st|] eqn:Hs.
   - rewrite Er. destruct (v_result D (C.cs_input x)) as [[o w]|ce|w|] eqn:Ev; cbn [v_beh v_out].
-    + rewrite Er. reflexivity.
+    + rewrite (v_den_out _ _ _ _ _ Er). reflexivity.
     + destruct ce; reflexivity.
     + reflexivity.
     + reflexivity.
